@@ -3,12 +3,14 @@
 package internal
 
 import (
+	"bufio"
 	"bytes"
 	"encoding/json"
 	"errors"
 	"fmt"
 	"io"
 	"os"
+	"path/filepath"
 	"runtime"
 	"strings"
 	"sync"
@@ -22,25 +24,155 @@ import (
 )
 
 func init() {
-	verifKinds["c09.raw"] = func(a []vsx) vsx { return verifC09Read(a, true) }
-	verifKinds["c09.read"] = func(a []vsx) vsx { return verifC09Read(a, false) }
+	reg := func(kind string, f func(c *verifC09Case, a []vsx) vsx) {
+		verifKinds[kind] = func(a []vsx) vsx {
+			return verifC09Guarded(verifC09Bound(verifStallTimeout), true, func(c *verifC09Case) vsx { return f(c, a) })
+		}
+	}
+	for kind, raw := range map[string]bool{"c09.raw": true, "c09.read": false} {
+		raw := raw
+		verifKinds[kind] = func(a []vsx) vsx {
+			if len(a) == 5 && a[4].i == 1 {
+				// a stalled peer (only shrinker candidates and replays get here; the generator uses c09.stall)
+				return verifC09StallEval(int(a[0].i), a[1], a[2], a[3], raw, true)
+			}
+			return verifC09Guarded(verifC09Bound(verifStallTimeout), true, func(c *verifC09Case) vsx { return verifC09Read(c, a, raw) })
+		}
+	}
+	reg("c09.dec", verifC09Dec)
+	reg("c09.write", verifC09Write)
+	reg("c09.json", verifC09JSON)
+	reg("c09.jsonrt", verifC09JSONRoundTrip)
+	reg("c09.wsink", verifC09WSink)
+	reg("c09.pipe", verifC09Pipe)
+	reg("c09.jsonwrite", verifC09JSONWrite)
+	// stalled peers bring their own watchdog (one per attempt, scaled with the attempt's timeout)
+	verifKinds["c09.stall"] = verifC09Stall
 	verifKinds["c09.stalls"] = verifC09Stalls
-	verifKinds["c09.dec"] = verifC09Dec
-	verifKinds["c09.write"] = verifC09Write
-	verifKinds["c09.json"] = verifC09JSON
-	verifKinds["c09.jsonrt"] = verifC09JSONRoundTrip
-	verifKinds["c09.wsink"] = verifC09WSink
-	verifKinds["c09.pipe"] = verifC09Pipe
-	verifKinds["c09.jsonwrite"] = verifC09JSONWrite
 }
 
 var errVerifIO = errors.New("verif: scripted I/O error")
 var errVerifUnblocked = errors.New("verif: blocked read released at end of case")
 
 const (
-	verifNoTimeout    = 60 * time.Second
+	// cases whose source never blocks have no timeout that could fire: this stands for "none"
+	verifNoTimeout = 60 * time.Second
+	// the configured timeout of a case with a stalled peer (first attempt, see verifC09StallEval)
 	verifStallTimeout = 300 * time.Millisecond
 )
+
+// ---------------------------------------------------------------------------------------------
+// Per-case watchdog.  Every case runs in a goroutine of its own.  A case that has not finished
+// after verifC09Bound(configured timeout) = max(50 x timeout, 10 s) is given the outcome (hang):
+// its goroutine is abandoned, every scripted source it reads from is released (the blocked Read
+// returns an error) so that the goroutine can die, and the evaluation carries on with the next
+// case.  The unchanged code needs microseconds to a few milliseconds for a case without a stall
+// and timeout + a few milliseconds for one with a stall, so the bound is never met by it, whatever
+// the load of the machine.  The model never answers (hang): for a stalled peer the timeout
+// outcome is a theorem (stall_reports), so a hang is a disagreement like any other.
+// ---------------------------------------------------------------------------------------------
+type verifC09Case struct {
+	mu       sync.Mutex
+	srcs     []*verifSrc
+	released bool
+}
+
+func (c *verifC09Case) add(s *verifSrc) *verifSrc {
+	c.mu.Lock()
+	defer c.mu.Unlock()
+	c.srcs = append(c.srcs, s)
+	if c.released {
+		s.release()
+	}
+	return s
+}
+
+func (c *verifC09Case) releaseAll() {
+	c.mu.Lock()
+	defer c.mu.Unlock()
+	c.released = true
+	for _, s := range c.srcs {
+		s.release()
+	}
+}
+
+func verifC09Bound(timeout time.Duration) time.Duration {
+	factor, floor := time.Duration(50), 10*time.Second
+	if verifC09ShrinkRun() {
+		// Candidate files of the shrinker: their results only steer the search for a smaller case - the
+		// case finally written as replay is evaluated once more in a file of its own ("final.*") with
+		// the full bound, and is dropped in favour of the unshrunk case if it does not disagree there.
+		// A hanging candidate is met in nearly every round once the failure is a hang, so the full
+		// bound would be paid some thirty times per reported case.
+		factor, floor = 10, 3*time.Second
+	}
+	b := factor * timeout
+	if b < floor {
+		b = floor
+	}
+	return b
+}
+
+func verifC09ShrinkRun() bool {
+	return strings.HasPrefix(filepath.Base(os.Getenv("VERIF_CASES")), "shrink.")
+}
+
+// Bounded total time: the cases of one file are evaluated one after the other, so every hang costs
+// its full bound.  After verifC09HangLimit() hangs in this process the remaining cases are not
+// evaluated any more and answer (bad-case hang-budget-exhausted) - in the main run the hangs
+// themselves come first in the file and are what is reported; the shrinker skips bad-case
+// candidates.  In a shrinker run (case file "shrink.*") the limit is 1: the candidates behind the
+// first hanging one cannot be chosen anyway (the first disagreeing candidate wins).
+var (
+	verifC09HangMu    sync.Mutex
+	verifC09HangCount int
+)
+
+func verifC09HangLimit() int {
+	if verifC09ShrinkRun() {
+		return 1
+	}
+	return 4
+}
+
+func verifC09Guarded(bound time.Duration, budgeted bool, f func(c *verifC09Case) vsx) vsx {
+	if budgeted {
+		verifC09HangMu.Lock()
+		spent := verifC09HangCount >= verifC09HangLimit()
+		verifC09HangMu.Unlock()
+		if spent {
+			return vL(vS("bad-case"), vS("hang-budget-exhausted"))
+		}
+	}
+	c := &verifC09Case{}
+	done := make(chan vsx, 1)
+	go func() {
+		defer func() {
+			if r := recover(); r != nil {
+				if os.Getenv("VERIF_DEBUG") != "" {
+					fmt.Fprintf(os.Stderr, "verif: panic: %v\n", r)
+				}
+				done <- vCrash()
+			}
+		}()
+		done <- f(c)
+	}()
+	timer := time.NewTimer(bound)
+	defer timer.Stop()
+	select {
+	case res := <-done:
+		c.releaseAll()
+		return res
+	case <-timer.C:
+	}
+	c.releaseAll() // abandoned: its pipes are closed so that it can die
+	if budgeted {
+		verifC09HangMu.Lock()
+		verifC09HangCount++
+		verifC09HangMu.Unlock()
+	}
+	return vL(vS("hang"))
+}
 
 // verifSrc is the scripted io.Reader: the same source as C09_Model.src_read.
 type verifSrc struct {
@@ -53,8 +185,13 @@ type verifSrc struct {
 	unblock chan struct{}
 	blocked chan struct{} // closed when a Read starts blocking
 	once    sync.Once
+	relOnce sync.Once
 	maxReq  int
+	// when the source started to block (written before `blocked` is closed)
+	blockedAt time.Time
 }
+
+func (c *verifC09Case) newSrc(d, sch, eg, tl vsx) *verifSrc { return c.add(newVerifSrc(d, sch, eg, tl)) }
 
 func newVerifSrc(d, sch, eg, tl vsx) *verifSrc {
 	s := &verifSrc{data: d.b, eager: eg.boolean(), tail: int(tl.i), unblock: make(chan struct{}), blocked: make(chan struct{})}
@@ -86,7 +223,7 @@ func (s *verifSrc) Read(p []byte) (int, error) {
 		if err := s.tailErr(); err != nil {
 			return 0, err
 		}
-		s.once.Do(func() { close(s.blocked) })
+		s.once.Do(func() { s.blockedAt = time.Now(); close(s.blocked) })
 		<-s.unblock
 		return 0, errVerifUnblocked
 	}
@@ -109,7 +246,16 @@ func (s *verifSrc) Read(p []byte) (int, error) {
 	return k, err
 }
 
-func (s *verifSrc) release() { close(s.unblock) }
+func (s *verifSrc) release() { s.relOnce.Do(func() { close(s.unblock) }) }
+
+func (s *verifSrc) isBlocked() bool {
+	select {
+	case <-s.blocked:
+		return true
+	default:
+		return false
+	}
+}
 
 func verifC09ErrKind(err error) string {
 	switch {
@@ -141,20 +287,26 @@ func verifC09Final(err error, src *verifSrc) vsx {
 	if strings.HasPrefix(msg, pfx) {
 		var nread, expecting int
 		var what string
-		if n, _ := fmt.Sscanf(msg, pfx+": read %d/%d bytes of %s", &nread, &expecting, &what); n == 3 {
+		// the progress counts are taken out of the error as numbers (received, expected, and which unit
+		// they are counts of); the wording around them is not compared
+		if n, _ := fmt.Sscanf(msg, pfx+": read %d/%d bytes of %s", &nread, &expecting, &what); n == 3 && (what == "message" || what == "length") {
 			return vL(vS("timeout"), vBool(what == "message"), vInt(nread), vInt(expecting))
 		}
 	}
 	return vL(vS("other-error"), vS(msg))
 }
 
-// one stream through readDelimitedMessageRaw (raw) or ReadDelimitedMessage (typed), until the first error
-func verifC09ReadStream(maxSize int, src *verifSrc, raw bool, timeout time.Duration) vsx {
+// one stream through readDelimitedMessageRaw (raw) or ReadDelimitedMessage (typed), until the first error.
+// The second result says that a timeout outcome cannot be taken at face value because the machine was
+// too slow for the configured timeout (see verifC09StallEval).
+func verifC09ReadStream(maxSize int, src *verifSrc, raw bool, timeout time.Duration) (vsx, bool) {
 	var msgs []vsx
 	var final vsx
+	late := false
 	for {
 		var data []byte
 		var err error
+		callStart := time.Now()
 		if raw {
 			reader := timeoutDelimitedReader{in: src, source: "peer", timeout: timeout, maxSize: maxSize, readDone: make(chan struct{})}
 			data, err = reader.readDelimitedMessageRaw()
@@ -164,7 +316,21 @@ func verifC09ReadStream(maxSize int, src *verifSrc, raw bool, timeout time.Durat
 			data = append([]byte{}, msg.ProtoReflect().GetUnknown()...)
 		}
 		if err != nil {
+			if !raw && verifC09ErrKind(err) == "unmarshal" {
+				return vL(vS("bad-case")), false // typed entry point: the case must carry wire-format messages
+			}
 			final = verifC09Final(err, src)
+			if tag := final.l[0].str(); tag == "timeout" || tag == "timeout-nothing" {
+				switch {
+				case !src.isBlocked():
+					late = true // the timer fired although the peer had not stalled (yet)
+				case src.blockedAt.Sub(callStart) > timeout/2:
+					late = true // too close to call: the stall point was reached late in the period
+				case time.Since(callStart) > 20*timeout:
+					late = true
+					final = vErr("timeout-far-later-than-configured")
+				}
+			}
 			break
 		}
 		msgs = append(msgs, vB(data))
@@ -174,18 +340,38 @@ func verifC09ReadStream(maxSize int, src *verifSrc, raw bool, timeout time.Durat
 		limit = 4
 	}
 	// third component: every buffer handed to Read stayed within max(4, limit)  (= C09_Model.bufs_within)
-	return vL(vL(msgs...), final, vBool(src.maxReq <= limit))
+	return vL(vL(msgs...), final, vBool(src.maxReq <= limit)), late
+}
+
+// A peer that stalls after the data (tail = block for ever): the outcome is the timeout error with its
+// progress counts.  It is exact provided the timer fires AFTER the source has reached its stall point;
+// the scripted source never waits before that point, so this only takes CPU time - but on a heavily
+// loaded machine even that may take longer than the timeout.  The harness therefore notes when the
+// source began to block: an attempt whose stall point was reached later than half the timeout after
+// the start of the call that timed out (or not at all) is repeated with 4 x the timeout, twice at
+// most; the last attempt counts as it is.  Each attempt runs under the watchdog with the bound that
+// belongs to its timeout.
+func verifC09StallEval(maxSize int, d, sch, eg vsx, raw bool, budgeted bool) vsx {
+	for attempt := 0; ; attempt++ {
+		attempt, timeout := attempt, verifStallTimeout<<(2*attempt) // 300 ms, 1.2 s, 4.8 s
+		res := verifC09Guarded(verifC09Bound(timeout), budgeted, func(c *verifC09Case) vsx {
+			src := c.newSrc(d, sch, eg, vI(1))
+			r, late := verifC09ReadStream(maxSize, src, raw, timeout)
+			if late && attempt < 2 {
+				return vL(vS("late"))
+			}
+			return r
+		})
+		if len(res.l) != 1 || res.l[0].str() != "late" {
+			return res
+		}
+	}
 }
 
 // (max data sched eager tail)
-func verifC09Read(args []vsx, raw bool) vsx {
+func verifC09Read(c *verifC09Case, args []vsx, raw bool) vsx {
 	maxSize := int(args[0].i)
-	src := newVerifSrc(args[1], args[2], args[3], args[4])
-	defer src.release()
-	timeout := verifNoTimeout
-	if src.tail == 1 {
-		timeout = verifStallTimeout
-	}
+	src := c.newSrc(args[1], args[2], args[3], args[4])
 	// Allocation probe for "a length above the limit is rejected before allocating it".
 	// It is evaluated ONLY for a stream whose first invalid frame announces a length ABOVE the
 	// limit (verifC09FirstOversize, computed from the case data alone, not from what the code
@@ -194,9 +380,10 @@ func verifC09Read(args []vsx, raw bool) vsx {
 	// front of the oversize one is complete, so everything legitimately allocated is bounded by
 	// a small multiple of the bytes received.  MemStats.TotalAlloc is the cumulative number of
 	// heap bytes allocated (monotone, exact after ReadMemStats, not changed by GC cycles), no
-	// other goroutine of the test binary is running during a c09.raw/c09.read case, and the
-	// probe only fires when the announced length itself exceeds budget + 1 MiB, so that GC
-	// timing or runtime bookkeeping cannot raise it.
+	// other goroutine of the test binary is running during a c09.raw/c09.read case (the
+	// evaluation loop only waits for this one), and the probe only fires when the announced
+	// length itself exceeds budget + 1 MiB, so that GC timing or runtime bookkeeping cannot
+	// raise it.
 	over, announced := verifC09FirstOversize(src.data, maxSize)
 	budget := uint64(8*len(src.data) + (1 << 20))
 	measure := over && uint64(announced) > budget+(1<<20)
@@ -204,7 +391,7 @@ func verifC09Read(args []vsx, raw bool) vsx {
 	if measure {
 		runtime.ReadMemStats(&before)
 	}
-	res := verifC09ReadStream(maxSize, src, raw, timeout)
+	res, _ := verifC09ReadStream(maxSize, src, raw, verifNoTimeout)
 	if measure {
 		var after runtime.MemStats
 		runtime.ReadMemStats(&after)
@@ -232,7 +419,77 @@ func verifC09FirstOversize(data []byte, maxSize int) (bool, int) {
 	return false, 0
 }
 
-// ((max data sched eager) ...): stalled peers, evaluated concurrently so that a generous timeout costs nothing
+// (max data sched eager typed): one stalled peer.  All c09.stall cases of the case file are evaluated
+// CONCURRENTLY the first time one of them is asked for (each of them waits for a timeout, and a hanging
+// one for its watchdog: one after the other that would be the sum, together it is the maximum, which
+// also bounds the time the shrinker's candidate files take: one watchdog bound per file).
+var verifC09Pre struct {
+	once sync.Once
+	res  map[string]vsx
+}
+
+func verifC09Key(a []vsx) string {
+	var sb strings.Builder
+	vL(a...).print(&sb)
+	return sb.String()
+}
+
+func verifC09StallOne(a []vsx) vsx {
+	return verifC09StallEval(int(a[0].i), a[1], a[2], a[3], !a[4].boolean(), false)
+}
+
+func verifC09Prefetch() {
+	verifC09Pre.res = map[string]vsx{}
+	fin, err := os.Open(os.Getenv("VERIF_CASES"))
+	if err != nil {
+		return
+	}
+	defer fin.Close()
+	sc := bufio.NewScanner(fin)
+	sc.Buffer(make([]byte, 1<<20), 1<<30)
+	todo := map[string][]vsx{}
+	for sc.Scan() {
+		line := sc.Text()
+		if !strings.HasPrefix(line, "(\"c09.stall\" ") {
+			continue
+		}
+		c := (&vparser{s: line}).item()
+		if c.k != 'l' || len(c.l) != 7 {
+			continue
+		}
+		todo[verifC09Key(c.l[2:])] = c.l[2:]
+	}
+	var mu sync.Mutex
+	var wg sync.WaitGroup
+	sem := make(chan struct{}, 128)
+	for k, a := range todo {
+		wg.Add(1)
+		sem <- struct{}{}
+		go func(k string, a []vsx) {
+			defer wg.Done()
+			defer func() { <-sem }()
+			res := verifEvalOne(verifC09StallOne, a)
+			mu.Lock()
+			verifC09Pre.res[k] = res
+			mu.Unlock()
+		}(k, a)
+	}
+	wg.Wait()
+}
+
+func verifC09Stall(args []vsx) vsx {
+	if len(args) != 5 {
+		return vL(vS("bad-case"))
+	}
+	verifC09Pre.once.Do(verifC09Prefetch)
+	if res, ok := verifC09Pre.res[verifC09Key(args)]; ok {
+		return res
+	}
+	return verifC09StallOne(args)
+}
+
+// ((max data sched eager) ...): a batch of stalled peers, evaluated concurrently; even entries through
+// readDelimitedMessageRaw, odd ones through ReadDelimitedMessage
 func verifC09Stalls(args []vsx) vsx {
 	out := make([]vsx, len(args[0].l))
 	var wg sync.WaitGroup
@@ -240,52 +497,59 @@ func verifC09Stalls(args []vsx) vsx {
 		wg.Add(1)
 		go func(i int, c vsx) {
 			defer wg.Done()
-			src := newVerifSrc(c.l[1], c.l[2], c.l[3], vI(1))
-			defer src.release()
-			start := time.Now()
-			res := verifC09ReadStream(int(c.l[0].i), src, i%2 == 0, verifStallTimeout)
-			select {
-			case <-src.blocked:
-			default:
-				res = vErr("harness: source never reached its stall point")
-			}
-			if el := time.Since(start); el > 20*verifStallTimeout {
-				res = vErr("timeout-far-later-than-configured")
-			}
-			out[i] = res
+			out[i] = verifEvalOne(func(a []vsx) vsx {
+				return verifC09StallEval(int(a[0].i), a[1], a[2], a[3], i%2 == 0, false)
+			}, c.l)
 		}(i, c)
 	}
 	wg.Wait()
 	return vL(out...)
 }
 
-func verifC09Watch(blocking bool, f func() error) (error, bool) {
-	if !blocking {
+var errVerifPanicked = errors.New("verif: decoder panicked")
+
+// The peers' decoders have no timeout: when the peer stalls, DecodeNext blocks.  That is observed
+// exactly, without a clock: the call runs in a goroutine and the scripted source says when a Read
+// has begun to block; a synchronous decoder sits in that Read and cannot return any more.
+func verifC09Watch(src *verifSrc, f func() error) (error, bool) {
+	if src.tail != 1 {
 		return f(), false
 	}
 	done := make(chan error, 1)
-	go func() { done <- f() }()
+	go func() {
+		defer func() {
+			if r := recover(); r != nil {
+				done <- errVerifPanicked
+			}
+		}()
+		done <- f()
+	}()
 	select {
 	case err := <-done:
+		if err == errVerifPanicked {
+			panic(err)
+		}
 		return err, false
-	case <-time.After(verifStallTimeout):
+	case <-src.blocked:
 		return nil, true
 	}
 }
 
 // (data sched eager tail) through codec.NewDecoder(r).DecodeNext
-func verifC09Dec(args []vsx) vsx {
-	src := newVerifSrc(args[0], args[1], args[2], args[3])
-	defer src.release()
+func verifC09Dec(c *verifC09Case, args []vsx) vsx {
+	src := c.newSrc(args[0], args[1], args[2], args[3])
 	dec := NewCodec(false).NewDecoder(src)
 	var msgs []vsx
 	for {
 		msg := &emptypb.Empty{}
-		err, blocked := verifC09Watch(src.tail == 1, func() error { return dec.DecodeNext(msg) })
+		err, blocked := verifC09Watch(src, func() error { return dec.DecodeNext(msg) })
 		if blocked {
 			return vL(vL(msgs...), vL(vS("blocked")))
 		}
 		if err != nil {
+			if verifC09ErrKind(err) == "unmarshal" {
+				return vL(vS("bad-case"))
+			}
 			return vL(vL(msgs...), verifC09Final(err, src))
 		}
 		msgs = append(msgs, vB(append([]byte{}, msg.ProtoReflect().GetUnknown()...)))
@@ -293,7 +557,7 @@ func verifC09Dec(args []vsx) vsx {
 }
 
 // (messages) -> stream bytes; the three writers must agree
-func verifC09Write(args []vsx) vsx {
+func verifC09Write(_ *verifC09Case, args []vsx) vsx {
 	var rawOut, typedOut, encOut bytes.Buffer
 	enc := NewCodec(false).NewEncoder(&encOut)
 	typed := true
@@ -324,7 +588,7 @@ func verifC09JSONStream(src *verifSrc) vsx {
 	var vals []vsx
 	for {
 		msg := &structpb.Value{}
-		err, blocked := verifC09Watch(src.tail == 1, func() error { return dec.DecodeNext(msg) })
+		err, blocked := verifC09Watch(src, func() error { return dec.DecodeNext(msg) })
 		if blocked {
 			return vL(vL(vals...), vL(vS("blocked")))
 		}
@@ -347,14 +611,12 @@ func verifC09JSONStream(src *verifSrc) vsx {
 }
 
 // (data sched eager tail)
-func verifC09JSON(args []vsx) vsx {
-	src := newVerifSrc(args[0], args[1], args[2], args[3])
-	defer src.release()
-	return verifC09JSONStream(src)
+func verifC09JSON(c *verifC09Case, args []vsx) vsx {
+	return verifC09JSONStream(c.newSrc(args[0], args[1], args[2], args[3]))
 }
 
 // (values sched eager): written by the JSON encoder, read back by the JSON decoder
-func verifC09JSONRoundTrip(args []vsx) vsx {
+func verifC09JSONRoundTrip(c *verifC09Case, args []vsx) vsx {
 	var out bytes.Buffer
 	enc := NewCodec(true).NewEncoder(&out)
 	for _, v := range args[0].l {
@@ -366,15 +628,16 @@ func verifC09JSONRoundTrip(args []vsx) vsx {
 			return vErr("encode")
 		}
 	}
-	src := newVerifSrc(vB(out.Bytes()), args[1], args[2], vI(0))
-	defer src.release()
-	return verifC09JSONStream(src)
+	return verifC09JSONStream(c.newSrc(vB(out.Bytes()), args[1], args[2], vI(0)))
 }
 
 // verifSink is the scripted io.Writer: the same sink as C09_Model.sink_write (room < 0: never fails).
+// After its failure it keeps failing (a closed pipe), or - heals - it failed just once and accepts
+// everything from then on (a transient error; just as legal an io.Writer).
 type verifSink struct {
-	out  []byte
-	room int
+	out   []byte
+	room  int
+	heals bool
 }
 
 var errVerifSink = errors.New("verif: scripted writer is closed")
@@ -392,13 +655,16 @@ func (k *verifSink) Write(p []byte) (int, error) {
 	n := k.room
 	k.out = append(k.out, p[:n]...)
 	k.room = 0
+	if k.heals {
+		k.room = -1
+	}
 	return n, errVerifSink
 }
 
 // writes the messages with writer number w (0 writeDelimitedMessageRaw, 1 WriteDelimitedMessage,
 // 2 protoEncoder.Encode) until the first error
-func verifC09WriteAll(w int, msgs []vsx, room int) (*verifSink, int, bool, bool) {
-	sink := &verifSink{room: room}
+func verifC09WriteAll(w int, msgs []vsx, room int, heals bool) (*verifSink, int, bool, bool) {
+	sink := &verifSink{room: room, heals: heals}
 	enc := NewCodec(false).NewEncoder(sink)
 	n := 0
 	for _, m := range msgs {
@@ -424,13 +690,17 @@ func verifC09WriteAll(w int, msgs []vsx, room int) (*verifSink, int, bool, bool)
 	return sink, n, false, true
 }
 
-// (messages room): the three writers on a writer that fails after room bytes; they must agree
-func verifC09WSink(args []vsx) vsx {
-	room := int(args[1].i)
-	sink, n, failed, _ := verifC09WriteAll(0, args[0].l, room)
+// (messages room heals): the three writers on a writer that fails after room bytes (and then keeps
+// failing, or heals); they must agree
+func verifC09WSink(_ *verifC09Case, args []vsx) vsx {
+	if len(args) != 3 {
+		return vL(vS("bad-case"))
+	}
+	room, heals := int(args[1].i), args[2].boolean()
+	sink, n, failed, _ := verifC09WriteAll(0, args[0].l, room, heals)
 	res := vL(vB(sink.out), vInt(n), vBool(failed))
 	for w := 1; w <= 2; w++ {
-		s2, n2, f2, valid := verifC09WriteAll(w, args[0].l, room)
+		s2, n2, f2, valid := verifC09WriteAll(w, args[0].l, room, heals)
 		if !valid {
 			break // not wire-format messages: raw writer only
 		}
@@ -443,23 +713,24 @@ func verifC09WSink(args []vsx) vsx {
 
 // (dir max messages room sched eager): one side encodes until its writer fails, the pipe is then closed,
 // the other side decodes what went through
-func verifC09Pipe(args []vsx) vsx {
+func verifC09Pipe(c *verifC09Case, args []vsx) vsx {
 	dir := args[0].boolean()
 	w := 1
 	if dir {
 		w = 2
 	}
-	sink, n, failed, valid := verifC09WriteAll(w, args[2].l, int(args[3].i))
+	sink, n, failed, valid := verifC09WriteAll(w, args[2].l, int(args[3].i), false)
 	if !valid {
 		return vL(vS("bad-case"))
 	}
-	src := newVerifSrc(vB(sink.out), args[4], args[5], vI(0))
-	defer src.release()
 	var read vsx
 	if dir {
-		read = verifC09ReadStream(int(args[1].i), src, false, verifNoTimeout)
+		read, _ = verifC09ReadStream(int(args[1].i), c.newSrc(vB(sink.out), args[4], args[5], vI(0)), false, verifNoTimeout)
 	} else {
-		read = verifC09Dec([]vsx{vB(sink.out), args[4], args[5], vI(0)})
+		read = verifC09Dec(c, []vsx{vB(sink.out), args[4], args[5], vI(0)})
+	}
+	if len(read.l) == 1 {
+		return read // bad-case
 	}
 	return vL(vInt(n), vBool(failed), read)
 }
@@ -491,7 +762,7 @@ func verifC09Compact(b []byte) []byte {
 }
 
 // (values room-class) through jsonEncoder.Encode
-func verifC09JSONWrite(args []vsx) vsx {
+func verifC09JSONWrite(_ *verifC09Case, args []vsx) vsx {
 	var msgs []proto.Message
 	total := 0
 	var each []vsx
